@@ -65,7 +65,12 @@ def value_domain(module, flag):
     elif g.get("bytes"):
         vals.add(int.from_bytes(bytes.fromhex(g["bytes"]), "little", signed=True))
     nonconst = []
+    # in the inlined view (irdump --inline-internal) file-local helpers stay defined for reference but are called from
+    # nowhere: what they store is accounted for in their callers
+    called = set(c.callee for g2 in module.defined() for c in g2.calls() if c.callee)
     for f in module.defined():
+        if getattr(f, "internal", False) and f.name not in called:
+            continue
         for i in f.insts():
             if i.op == "store" and flag in ir.globals_in(i.ops[1]):
                 c = ir.const_int(i.ops[0])
